@@ -129,9 +129,17 @@ def corruptMimo (sw : Bool) (delays : List Nat) (vals : List (Nat → Nat → Na
 /-- output / input antenna counts of the MIMO paths -/
 def Tdl.dims (c : Tdl α) (nr nt : Nat) : Nat × Nat := if c.switched then (nt, nr) else (nr, nt)
 
+/-- the signal has one row per transmitting antenna (SISO: the single 1-D row); checked
+    before anything is generated, so a rejected signal leaves the object untouched -/
+def Tdl.signalOk (c : Tdl α) (x : List (List α)) : Bool :=
+  match c.ant with
+  | none => x.length == 1
+  | some (nr, nt) => x.length == (c.dims nr nt).2
+
 /-- `TdlChannel.corrupt_data`. SISO signals are the single row `[v]`. -/
 def Tdl.corrupt (proc : Proc α) (c : Tdl α) (x : List (List α)) : Except PyErr (Tdl α × List (List α)) := do
   let n := numSymbols x
+  if !(c.signalOk x) then throw .ValueError
   let ir := genIR proc c c.pos n
   let c' := { c with pos := c.pos + n, last := some ir }
   let mem ← c.mem
@@ -142,7 +150,7 @@ def Tdl.corrupt (proc : Proc α) (c : Tdl α) (x : List (List α)) : Except PyEr
     | _ => throw .ValueError
   | some (nr, nt) =>
     let (nOut, nIn) := c.dims nr nt
-    if x.length < nIn then throw .IndexError
+    if x.length ≠ nIn then throw .ValueError
     else pure (c', corruptMimo c.switched ir.delays ir.vals nOut nIn mem n x)
 
 /-! ## Frequency domain -/
@@ -177,16 +185,17 @@ def selPos (sel : Sel) (N : Nat) : Except PyErr (List Nat) :=
 
 /-- everything `corrupt_data_in_freq_domain` decides before touching the signal:
     selected positions, block size, number of blocks.  The errors are the ones
-    the source raises (`% 0`, length check, empty `concatenate_samples`,
-    bad index, shape mismatch of `freq_response * signal[block]`). -/
+    the source raises, in its order (zero slice step, bad index — validated before any fading
+    sample is consumed —, `% 0`, length check, empty `concatenate_samples`, shape mismatch of
+    `freq_response * signal[block]`). -/
 def freqPlan (sel : Sel) (fft n : Nat) : Except PyErr (List Nat × Nat × Nat) := do
   if fft = 0 then throw .ValueError
   let B ← blockSize sel fft
+  let ps ← selPos sel fft
   if B = 0 then throw .ZeroDivisionError
   if pyMod n B ≠ 0 then throw .ValueError
   let nb := pyFloorDiv n B
   if nb ≤ 0 then throw .ValueError
-  let ps ← selPos sel fft
   if (ps.length : Int) ≠ B then throw .ValueError
   pure (ps, B.toNat, nb.toNat)
 
@@ -236,6 +245,7 @@ def freqMimo (fftK : Fft α) (sw : Bool) (irs : List (IR α)) (fft : Nat) (ps : 
 def Tdl.corruptFreq (proc : Proc α) (fftK : Fft α) (c : Tdl α) (x : List (List α)) (fft : Nat) (sel : Sel) :
     Except PyErr (Tdl α × List (List α)) := do
   let n := numSymbols x
+  if !(c.signalOk x) then throw .ValueError
   let (ps, B, nb) ← freqPlan sel fft n
   let irs := blockIRs proc c fft nb c.pos
   let last ← concatIR irs
@@ -247,7 +257,7 @@ def Tdl.corruptFreq (proc : Proc α) (fftK : Fft α) (c : Tdl α) (x : List (Lis
     | _ => throw .ValueError
   | some (nr, nt) =>
     let (nOut, nIn) := c.dims nr nt
-    if x.length < nIn then throw .IndexError
+    if x.length ≠ nIn then throw .ValueError
     else pure (c', freqMimo fftK c.switched irs fft ps B nOut nIn x)
 
 /-- `get_last_impulse_response` -/
@@ -303,6 +313,8 @@ def Mu.transmit (c : Mu α) (x : List (List (List α)))
     Except PyErr (Mu α × List (List (List α))) := do
   let sw ← c.switched
   if c.nTx = 0 then throw .IndexError
+  -- one signal per source, checked before any link transmits
+  if x.length ≠ (if sw then c.nRx else c.nTx) then throw .ValueError
   let res ← c.links.zipIdx.mapM (fun li =>
       let src := if sw then li.2 / c.nTx else li.2 % c.nTx
       match x[src]? with
@@ -353,6 +365,14 @@ inductive SuOp (α : Type)
   | setSwitched (b : Bool)
   | setPathloss (s : Option α)
   | getIR
+  /-- `set_num_antennas(nr, nt)`; `none` = `(None, None)` = back to SISO -/
+  | setAnt (a : Option (Nat × Nat))
+  /-- `TdlChannel.generate_impulse_response(n)` called by the user -/
+  | gen (n : Nat)
+  /-- a setter call its guard rejects (`set_pathloss` outside `[0, 1]`, a non-bool
+      `switched_direction`): the guards compare values the semiring cannot, so the harness
+      says which exception the guard raises -/
+  | rejected (e : PyErr)
 
 inductive SuOut (α : Type)
   | y (rows : List (List α))
@@ -365,6 +385,24 @@ def Su.step (proc : Proc α) (fftK : Fft α) (c : Su α) : SuOp α → Except Py
   | .setSwitched b => pure ({ c with tdl := { c.tdl with switched := b } }, .unit)
   | .setPathloss s => pure ({ c with pl := s }, .unit)
   | .getIR => do let r ← c.lastIR; pure (c, .ir r)
+  | .setAnt a => pure ({ c with tdl := { c.tdl with ant := a } }, .unit)
+  | .gen n => pure ({ c with tdl := { c.tdl with pos := c.tdl.pos + n, last := some (genIR proc c.tdl c.tdl.pos n) } },
+                    .unit)
+  | .rejected e => throw e
+
+/-- a call that raises leaves the object exactly as it was (every guard of the modelled
+    methods runs before the first state change); the history goes on -/
+def Su.stepR (proc : Proc α) (fftK : Fft α) (c : Su α) (op : SuOp α) : Su α × Except PyErr (SuOut α) :=
+  match c.step proc fftK op with
+  | .ok (c', o) => (c', .ok o)
+  | .error e => (c, .error e)
+
+def Su.runR (proc : Proc α) (fftK : Fft α) : Su α → List (SuOp α) → Su α × List (Except PyErr (SuOut α))
+  | c, [] => (c, [])
+  | c, op :: ops =>
+      let r := c.stepR proc fftK op
+      let rest := Su.runR proc fftK r.1 ops
+      (rest.1, r.2 :: rest.2)
 
 /-- run a history; a Python exception ends it -/
 def Su.run (proc : Proc α) (fftK : Fft α) : Su α → List (SuOp α) → Except PyErr (Su α × List (SuOut α))
@@ -381,6 +419,7 @@ def SuOp.advance (jakes : Bool) : SuOp α → Nat
       match freqPlan sel fft (numSymbols x) with
       | .ok (_, _, nb) => blockEndPos jakes fft nb 0
       | .error _ => 0
+  | .gen n => n
   | _ => 0
 
 inductive MuOp (α : Type)
@@ -389,6 +428,8 @@ inductive MuOp (α : Type)
   | setSwitched (b : Bool)
   | setPathloss (s : List (List α))
   | getIR (rx tx : Nat)
+  /-- a setter call its guard rejects (an entry of the path-loss matrix outside `[0, 1]`) -/
+  | rejected (e : PyErr)
 
 inductive MuOut (α : Type)
   | y (outs : List (List (List α)))
@@ -401,5 +442,11 @@ def Mu.step (proc : Proc α) (fftK : Fft α) (c : Mu α) : MuOp α → Except Py
   | .setSwitched b => pure (c.setSwitched b, .unit)
   | .setPathloss s => do let c' ← c.setPathloss s; pure (c', .unit)
   | .getIR rx tx => do let r ← c.lastIR rx tx; pure (c, .ir r)
+  | .rejected e => throw e
+
+def Mu.stepR (proc : Proc α) (fftK : Fft α) (c : Mu α) (op : MuOp α) : Mu α × Except PyErr (MuOut α) :=
+  match c.step proc fftK op with
+  | .ok (c', o) => (c', .ok o)
+  | .error e => (c, .error e)
 
 end PyPhysim.C03
